@@ -126,5 +126,20 @@ for trial in range(N):
             for attr, want in expected[cn].items():
                 if want != "preset" and attr not in snap[cn]:
                     fail(f"setup() of {who} ran before {cn}.{attr} was injected", desc)
+# constructor injection: parameters are filled like attributes (robot attribute of the same name, else '<component name>_<param>')
+class Motor: pass
+class Wheel:
+    def __init__(self, motor: Motor, gain: int):
+        self.motor_, self.gain_ = motor, gain
+    def execute(self): pass
+for variant in range(2):
+    m_left, m_right, m_cls = Motor(), Motor(), Motor()
+    ns = {"__annotations__": {"left": Wheel, "right": Wheel}, "gain": 3, "left_motor": m_left, "right_motor": m_right, "createObjects": lambda self: None}
+    if variant: ns["Wheel_motor"] = m_cls        # an attribute named after the CLASS must not be used
+    Bot2 = type(f"CtorBot{variant}", (magicbot.MagicRobot,), ns)
+    b2 = Bot2(); b2.createObjects(); b2._automodes = Mock(); b2._automodes.modes = {}; total += 1
+    try: b2._create_components()
+    except Exception as e: fail(f"constructor injection through '<component>_<param>' failed: {e!r}", {"ctor": variant})
+    if b2.left.motor_ is not m_left or b2.right.motor_ is not m_right or b2.left.gain_ != 3: fail(f"constructor parameters received the wrong objects (variant {variant})", {"ctor": variant})
 print("not reproduced in", total, "generated robot definitions")
 print("STANDIN-JSON " + json.dumps({"bounded": True, "evaluations": total, "bound": f"{N} random robot definitions: <= 4 components, <= 4 annotated attributes each, 2-level robot inheritance"}))
